@@ -68,8 +68,8 @@ def struct_order(prog, rel, name):
 def new_exec(prog):
     ex = v1sum.new_exec(prog, [], 0)
     ex.suffix = ''
-    import models_it
-    ex.hooks = [models_v2.hook, models_b.hook, models_it.hook]
+    import models_it, models_more
+    ex.hooks = [models_v2.hook, models_b.hook, models_more.hook, models_it.hook]
     return ex
 
 
